@@ -175,3 +175,6 @@
 ; ---- C09: the two slug.PackerOption values the library itself uses, named as constants (function values are Int) ----
 (declare-fun optDereference () Int)
 (declare-fun optIgnore () Int)
+
+; ---- C15: open flags (linux values: O_CREATE = 64, O_TRUNC = 512) ----
+(define-fun flagBit ((f Int) (b Int)) Bool (= (mod (div f b) 2) 1))
